@@ -34,6 +34,10 @@ def _literal(e, depth=0):
         return True           # a precompiled pattern: `_RX = re.compile(P)` ... `_RX.sub(...)` is re.sub(P, ...)
     if isinstance(e, ast.Constant):
         return not isinstance(e.value, type(Ellipsis))
+    if depth == 0 and _builtin_name(e):
+        return True           # `_DICT = dict`: another name of a builtin type
+    if _none_type(e):
+        return True
     if isinstance(e, ast.UnaryOp) and isinstance(e.op, (ast.USub, ast.UAdd)) and isinstance(e.operand, ast.Constant) and \
             isinstance(e.operand.value, (int, float)):
         return True
@@ -43,6 +47,11 @@ def _literal(e, depth=0):
             and not isinstance(e.left, ast.Tuple) and not isinstance(e.right, ast.Tuple):
         return True          # 10 * 1024 * 1024
     return False
+
+
+def _none_type(e):
+    return isinstance(e, ast.Call) and isinstance(e.func, ast.Name) and e.func.id == "type" and len(e.args) == 1 and not e.keywords and \
+        isinstance(e.args[0], ast.Constant) and e.args[0].value is None
 
 
 def _builtin_name(e):
@@ -317,6 +326,22 @@ def propagate(trees):
         mc2 = dict(mc)
         for k, v in imported.items():
             mc2.setdefault(k, v)
+        # `from jsonrpclib.M import K` where K is a namespace class of M holding plain literal constants: K.NAME here is M's K.NAME
+        cc2 = dict(cc)
+        own_classes = set(c.name for c in ast.walk(tree) if isinstance(c, ast.ClassDef))
+        for st in ast.walk(tree):
+            if isinstance(st, ast.ImportFrom) and ((st.module or "").startswith(PKG_NAME + ".") or (st.level == 1 and st.module)):
+                src = (st.module or "").split(".")[-1]
+                if src == m or src not in mods:
+                    continue
+                for al in st.names:
+                    local = al.asname or al.name
+                    if local in own_classes:
+                        continue
+                    for (cn, an), v in mods[src][1].items():
+                        if cn == al.name and not any(isinstance(x, ast.Attribute) or (isinstance(x, ast.Name) and not _builtin_name(x)) for x in ast.walk(v)):
+                            cc2[(local, an)] = v
+        cc = cc2
         if not mc2 and not cc and not any(foreign.values()):
             continue
         sub = _Subst(m, mc2, cc, foreign, _module_aliases(tree), bases)
